@@ -8,6 +8,11 @@ correspond : whole programs with a side-effect trace from gen/cont08.py (+ corpu
              `c08`, one fresh Engine per program; default configuration, STEEL_JIT=false, STEEL_VERIF_GC_EVERY=1)
              vs the reference semantics S (lean/SteelVerif/C08/Spec.lean, CEK machine with the standard winders
              algorithm comparing extents by identity): values of the top-level forms, the trace, stdout, outcome.
+             8% of the programs are the NATIVE-CALLBACK family (gen/cont08.py t_native_callback): random nests of
+             call-with-exception-handler / with-handler / dynamic-wind / helper calls / further transduce levels INSIDE
+             callbacks of `transduce` (mapping / filtering / into-for-each / into-reducer), errors in bodies and in
+             handlers (re-raise, new error, failing the first times, returning): the handler search of the NESTED
+             interpreter instance (the second unwind loop of vm.rs).  They run three to a process with a short clock.
              A sixth of the programs are HISTORIES: pieces separated by `;;;---` are separate evaluations on one
              engine (a REPL session); forms store a continuation and die with an uncaught error, later pieces
              invoke it 0/1/n times under winds, handlers, calls.  (While finding K08h is open — vm.rs read by the
@@ -34,9 +39,9 @@ PID = "C08"
 META = {
     "ready": True,
     "category": "proof",
-    "technique": "Lean 4 theorems about (1) the winders algorithm of parameters.scm transcribed as list functions and (2) a flat-stack VM model of vm.rs with lazily captured continuation marks (Open/Closed), the two reinstatement paths and the handler search, for all operation sequences; the decisions the models depend on are re-read from parameters.scm / vm.rs on every run; + differential execution of generated continuation programs (trace of side effects, values): real engine (default, STEEL_JIT=false, collection at every allocation) vs an executable CEK reference semantics with R7RS winders (extents compared by identity)",
-    "level_text": "Proved (SteelVerif/C08/Props.lean, 22 audited theorems, no bound on stack depth, frames, captures or operations): wind_exactly_once (a transfer between winders A'++C and B'++C runs `after` of A' innermost-first then `before` of B' outermost-first, each once, nothing else, for the comparison parameters.scm uses — read from the source on every run: a return to equal? breaks the decide obligation code_compares_extents_by_identity; wind_exactly_once_partial under DistinctExtentsDiffer + decide'd counterexample for equal?), wind_normal_and_error_once (dynamic-wind's push / pop / handler mechanism = `before … after` exactly once per entered body in nesting order, on return and on error), wrapper_eq_doWind, wind_events_nodup; lazy_capture_eq_eager (for every sequence of frame push/pop, changes of the running frame, store writes, captures, invocations and error unwinds, a successful invocation of a captured continuation — mark closed or still open, either reference-count branch — reinstates exactly the operand stack, frames, ip and sp that an eager full copy at capture would), invoke_restores_pending_work (… frames, locals and argument temporaries of the capture; the store is the current one), invoke_twice_same (multi-shot), handler_nearest / handler_nearest_code (innermost handler frame, stack cut at its base, error pushed, frames below untouched; _partial + decide'd witness for code that pushes a dummy frame), invoke_never_panics / _code (every captured continuation stays invocable under the mark-closing discipline the code has now — code_mark_discipline, read from vm.rs: the mark of a popped frame is closed before it is taken, EVERY frame an error drops goes through the unwind loop — no shortcut that clears the frames —, a shared open mark is closed on invocation, no dummy frame; decide'd witnesses that the former discipline panicked). The VM model is my transcription of vm.rs at the level of frames and marks with abstract instructions; reset/shift, the JIT and nested interpreter instances are not modelled in Lean: they, the whole pipeline and dynamic-wind/handlers end to end are covered by the differential run against the reference semantics (20 000 programs x 3 configurations in the thorough tier).",
-    "level_note": "Trusted: Lean kernel, the transcription of vm.rs / parameters.scm into Model.lean / Wind.lean (tied by translate/c08_code.py for five decisions, by the debug assertions of the engine build — it keeps the eager copy next to every open mark and asserts equality — and by the differential run), C08/Spec.lean as the reading of the property (deviations: handler result is the value of the handler expression; a top-level form is the extent of its continuations), harness/driver/comparison, generator coverage. Open findings: K08b (reset/shift/with-handler share one meta-continuation cell and use the primitive call/cc) is attributed by class predicate (from S's run) AND exact agreement of the real engine with the faithful variant (parameters.scm + stdlib.scm transcribed into the object language, `c08driver impl`); K08e (continuations captured/invoked inside callbacks of native higher-order built-ins: nested interpreter instance, below the source level) by a syntactic class predicate. K08h (a continuation invoked by a later evaluation than the one that captured it resumes in the freed instructions of its form: undefined behaviour, fix proposed) by its class predicate alone, and only while vm.rs lacks the keep-alive; until then generated histories that invoke across evaluations are skipped (counted in the evidence) and a shortcut around the unwind loop is caught by the decide obligation only. Fixed during the build: D12/K08a, K08c, K08d, K08f, K08g (regression programs in findings/, run first in every tier). pop_count bookkeeping, threads, continuations crossing make_thread are not covered.",
+    "technique": "Lean 4 theorems about (1) the winders algorithm of parameters.scm transcribed as list functions, (2) a flat-stack VM model of vm.rs with lazily captured continuation marks (Open/Closed), the two reinstatement paths and the handler search, (3) dynamic-wind COMPOSED with the handler mechanism (parameters.scm's definition of dynamic-wind through call-with-exception-handler, a guarded pop of winders and a re-raise, compiled into a core language of handler frames) and (4) a history-level model of evaluations on one engine (what a continuation keeps alive: instruction lifetime of top-level forms), each for all operation sequences / programs / histories; the decisions the models depend on are re-read from parameters.scm / vm.rs on every run (eight decisions, each a decide obligation); + differential execution of generated continuation programs (trace of side effects, values): real engine (default, STEEL_JIT=false, collection at every allocation) vs an executable CEK reference semantics with R7RS winders (extents compared by identity)",
+    "level_text": "Proved (SteelVerif/C08/Props.lean, 37 audited theorems, no bound on stack depth, frames, captures, operations, extents, rounds or evaluations): wind_exactly_once (a transfer between winders A'++C and B'++C runs `after` of A' innermost-first then `before` of B' outermost-first, each once, nothing else, for the comparison parameters.scm uses — read from the source on every run; _partial under DistinctExtentsDiffer + decide'd counterexample for equal?), escape_after_innermost_first, reentry_before_outermost_first (a continuation captured inside extents B' and invoked from outside them runs their `before` thunks outermost first, each once), generator_round_trips (a continuation re-entered in a loop: for every n, n consumer/producer rounds run exactly after Q', before P', after P', before Q' per round — nothing accumulates, nothing is skipped), wind_normal_and_error_once, wrapper_eq_doWind, wind_events_nodup; wind_handler_compose (for EVERY program of notes, errors, user handlers and dynamic-winds, parameters.scm's dynamic-wind — written with call-with-exception-handler, the guarded pop and the re-raise — under the VM's rule `nearest handler frame, which runs uninstalled` yields exactly before/body/after per entered extent in nesting order on return and on error, handler bodies after the `after` thunks of every extent the error left, winders restored), error_through_extents (an error escaping through n nested extents to a handler: after eₙ … after e₁, each once, innermost first, and only then the handler body), nested_extents_bracket; lazy_capture_eq_eager (for every sequence of frame push/pop, changes of the running frame, store writes, captures, invocations and error unwinds, a successful invocation of a captured continuation — mark closed or still open, either reference-count branch — reinstates exactly the operand stack, frames, ip and sp that an eager full copy at capture would), invoke_restores_pending_work, invoke_twice_same, generator_resume_same (invoke; ANY further operations incl. further invocations, unwinds, captures; invoke again: the same frames, operand stack + passed value, resume address), handler_nearest / handler_nearest_code, handler_error_goes_to_next_handler (the handler runs with its frame's handler uninstalled: an error it raises, from any depth, goes to the NEXT handler frame — code_handler_uninstalled: vm.rs does this in BOTH unwind loops, the top-level one and the one of nested instances of native callbacks), invoke_never_panics / _code (code_mark_discipline); later_evaluation_invoke_safe / _code (for EVERY history of evaluations on one engine, with continuations invoked by the evaluation that captured them or by ANY later one, on the open or closed path: no raw instruction pointer of the running state — register, return address of any frame — points into a top-level form that nothing holds; it points into a function body or into the form `current_root` holds: code_continuation_keeps_root, read from vm.rs), cross_evaluation_invoke_installs_root, dangling_root_witness (decide'd: without the keep-alive the later evaluation resumes in freed instructions — K08h). The VM model is my transcription of vm.rs at the level of frames and marks with abstract instructions; the history model represents a continuation by its eager copy (justified by lazy_capture_eq_eager) + the root field; Control.lean takes thunks as atomic events; reset/shift, the JIT and nested interpreter instances are not modelled in Lean: they, the whole pipeline and dynamic-wind/handlers end to end are covered by the differential run against the reference semantics (20 000 programs x 3 configurations in the thorough tier), which includes a family of programs with handlers / winds / failing handlers INSIDE callbacks of native higher-order built-ins (the second unwind loop of vm.rs).",
+    "level_note": "Trusted: Lean kernel, the transcription of vm.rs / parameters.scm into Model.lean / Wind.lean / Control.lean / Marks.lean (tied by translate/c08_code.py for eight decisions — comparison of extents, shape of dynamic-wind and its guarded exit-on-error handler, mark closed before taken on every unwound frame, shared open mark closed on invocation, no dummy frame, handler uninstalled before it runs in both unwind loops, continuations keep their form's instructions —, by the debug assertions of the engine build — it keeps the eager copy next to every open mark and asserts equality — and by the differential run), C08/Spec.lean as the reading of the property (deviations: handler result is the value of the handler expression; a top-level form is the extent of its continuations; transduce = lazy per-element pipeline), harness/driver/comparison, generator coverage. Open findings: K08b (reset/shift/with-handler share one meta-continuation cell and use the primitive call/cc) is attributed by class predicate (from S's run) AND exact agreement of the real engine with the faithful variant (parameters.scm + stdlib.scm transcribed into the object language, `c08driver impl`); K08e (continuations captured/invoked inside callbacks of native higher-order built-ins: nested interpreter instance, below the source level) by a syntactic class predicate. Fixed during the build: D12/K08a, K08c, K08d, K08f, K08g, K08h (regression programs in findings/, run first in every tier; were K08h's keep-alive removed, code_continuation_keeps_root breaks and cross-evaluation histories are skipped as undefined behaviour). pop_count bookkeeping, nested evaluations (eval inside a form), threads, continuations crossing make_thread are not covered; thunks that themselves escape or raise during a transfer are covered by the differential run only.",
 }
 
 SEP = "\n;;;===\n"
@@ -81,7 +86,7 @@ def strip_comments(text):
     return "\n".join(l for l in text.split("\n") if not l.startswith("#"))
 
 
-def run_real(progs, env=None, timeout=240, reuse=1):
+def run_real(progs, env=None, timeout=240, reuse=1, per_chunk=None):
     """Run programs on the real engine in parallel child processes.  The harness exits after a panic (the
     process may be poisoned) and a child can die (abort, stack overflow, timeout): in both cases the rest of
     the chunk is run in a fresh process.  reuse > 1: one Engine serves that many consecutive programs (10x
@@ -114,6 +119,8 @@ def run_real(progs, env=None, timeout=240, reuse=1):
             todo = todo[done + 1:]
 
     nchunks = max(1, min(C.NCPU, n // 4 or 1)) if reuse <= 1 else max(1, min(C.NCPU * 4, n // 40 or 1))
+    if per_chunk:
+        nchunks = max(1, (n + per_chunk - 1) // per_chunk)
     chunks = [list(range(i, n, nchunks)) for i in range(nchunks)]
     C.pool_map(run_chunk, [c for c in chunks if c], workers=C.NCPU)
     return results
@@ -321,7 +328,12 @@ def run(ctx):
             # quick tier: the other configurations on the corpus and on every second generated program
             idxs = [i for i in judged if i < len(corpus) or (i % 2 == (0 if cname == "nojit" else 1))]
         fresh = [i for i in idxs if i < len(corpus) and i not in ub_short]
-        reused = [i for i in idxs if i >= len(corpus)]
+        # the native-callback family (handlers inside callbacks of native built-ins): when the nested instance's
+        # handler search is wrong such a program typically never terminates, so these run three to a process with
+        # a short clock (a hang is then a `crash: timeout` result = a disagreement with S, and costs seconds)
+        fam = [i for i in idxs if i >= len(corpus) and "tmpl-native-callback" in feats[i]]
+        famset = set(fam)
+        reused = [i for i in idxs if i >= len(corpus) and i not in famset]
         res = dict(zip(fresh, run_real([progs[i] for i in fresh], env=env)))
         # (undefined behaviour, often a hang: the witnesses run in the default configuration only, one process each)
         if cname != "default":
@@ -330,6 +342,10 @@ def run(ctx):
         for i in short:
             res[i] = run_real([progs[i]], env=env, timeout=10)[0]
         res.update(zip(reused, run_real([progs[i] for i in reused], env=env, reuse=10)))
+        res.update(zip(fam, run_real([progs[i] for i in fam], env=env, timeout=15, per_chunk=3)))
+        # (a loaded machine must not turn into a report: what ran out of time runs again alone with a long clock)
+        slow = [i for i in fam if res[i]["res"] == ("crash", "timeout")]
+        res.update(zip(slow, run_real([progs[i] for i in slow], env=env, timeout=90, per_chunk=1)))
         # every disagreement seen on a shared engine is confirmed on a fresh one
         redo = [i for i in reused if not same(res[i], spec[i])]
         res.update(zip(redo, run_real([progs[i] for i in redo], env=env)))
@@ -370,7 +386,7 @@ def run(ctx):
         "skipped_undefined_behaviour_K08h": len(ub_skipped),
         "programs": stats["programs"], "evaluations": sum(c["programs"] for c in stats["configs"].values()),
         "distinct_nontrivial": len(set(progs)),
-        "rule": "gen/cont08.py (seeded by VERIF_SEED): a sixth of the programs are HISTORIES (pieces `;;;---` = separate evaluations on one engine; forms that store a continuation and die with an uncaught error; later pieces invoke the stored continuations); random expression programs with captures/escapes/re-entries/winds/handlers/errors + templates (generator, coroutines, amb, with-lock, reset/shift, handler nesting); distinct = different program text; every program observes a trace of notes and the values of its top-level forms",
+        "rule": "gen/cont08.py (seeded by VERIF_SEED): a sixth of the programs are HISTORIES (pieces `;;;---` = separate evaluations on one engine; forms that store a continuation and die with an uncaught error; later pieces invoke the stored continuations); 8% native-callback family (handlers / winds / failing handlers nested inside callbacks of transduce stages and reducers: the handler search of nested interpreter instances); random expression programs with captures/escapes/re-entries/winds/handlers/errors + templates (generator, coroutines, amb, with-lock, reset/shift, handler nesting); distinct = different program text; every program observes a trace of notes and the values of its top-level forms",
         "code_decisions": code, "configs": stats["configs"], "feature_counts": stats["features"], "programs_with_event": stats["events"],
         "spec_outcomes": stats["outcomes"], "disagreements_checked": stats["disagreements_checked"],
         "known_finding_hits": stats["known_hits"], "samples": stats["samples"], "axioms": pr.get("axioms", {}),
